@@ -155,6 +155,9 @@ pub open spec fn tiles_in_tileset(tm: &TilemapData, ts: &Tileset, npixels: int) 
 pub struct LayerFlags { pub bits: u32 }
 impl LayerFlags {
     pub const VISIBLE: LayerFlags = LayerFlags { bits: 1 };
+    pub const MOVEMENT_LOCKED: LayerFlags = LayerFlags { bits: 4 };
+    pub const BACKGROUND: LayerFlags = LayerFlags { bits: 8 };
+    pub const BACKGROUND_LAYER: LayerFlags = LayerFlags { bits: 12 };
     /// bitflags-generated: keeps the seven defined bits 0x01..0x40 (TRUSTED)
     #[verifier::external_body]
     pub fn from_bits_truncate(bits: u32) -> (r: LayerFlags)
